@@ -7,6 +7,7 @@ of traffic (largest allowed UI in both directions, SYMM) runs through the real l
 from dsim import core, kernel, simnet
 from dsim.core import Violation
 from dsim.refs import llcp_wire as wire
+from dsim.refs import dep_wire
 
 ID = "C19"
 LEVEL = "exploration"
@@ -111,7 +112,9 @@ def run_one(sim, params):
             brty = brty.decode()
         except Exception:
             return [(simnet.DELIVER, net.latency, payload)]
-        td = frame[2:] if (brty == "106A" and frame[:1] == b"\xF0") else frame[1:]
+        td = dep_wire.transport_data(brty, frame)
+        if td is None:
+            return [(simnet.DELIVER, net.latency, payload)]     # discovery frame, not NFC-DEP
         if td[:2] == b"\xD4\x00":
             cap["atr_req"] = td
         elif td[:2] == b"\xD5\x01":
